@@ -306,7 +306,7 @@ def InlineXor2(obj:Logic):
     return "assign {} = {} ^ {};\n".format(getParentWireName(obj, obj.r), getParentWireName(obj, obj.a) , getParentWireName(obj, obj.b))
 
 def InlineMux2(obj:Logic):
-    return "assign {} = ({})? {} : {};\n".format(getParentWireName(obj, obj.r), getParentWireName(obj, obj.sel), getParentWireName(obj, obj.sel1) , getParentWireName(obj, obj.sel0))
+    return "assign {} = ({} & 1)? {} : {};\n".format(getParentWireName(obj, obj.r), getParentWireName(obj, obj.sel), getParentWireName(obj, obj.sel1) , getParentWireName(obj, obj.sel0))
 
 def InlineAddCarryIn(obj:Logic):
     return "assign {} = {} + {} + {};\n".format(getParentWireName(obj, obj.r), getParentWireName(obj, obj.a) , getParentWireName(obj, obj.b) , getParentWireName(obj, obj.ci) )
